@@ -150,13 +150,43 @@ pub fn take(pkg: &mut Package<SimDisk>) -> Snap {
         PackageType::Transform => PType::Transform,
     };
     let db_cp = pkg.database_codepage().id() as u32;
+    let listed = pkg.tables().len();
     let names: Vec<String> = pkg.tables().map(|t| t.name().to_string()).collect();
     let mut tables = BTreeMap::new();
+    let mut global_problems: Vec<String> = Vec::new();
+    if listed != names.len() {
+        global_problems.push(format!("tables().len() is {} but {} tables are yielded", listed, names.len()));
+    }
+    if pkg.has_table("No Such Table") || pkg.get_table("No Such Table").is_some() {
+        global_problems.push("has_table/get_table find a table that does not exist".into());
+    }
     for name in names {
         let mut ts = TableSnap { has_table: pkg.has_table(&name), ..Default::default() };
         let columns: Vec<msi::Column> = match pkg.get_table(&name) {
             Some(t) => {
                 ts.key_idx = t.primary_key_indices();
+                if t.name() != name {
+                    ts.api_problems.push(format!("get_table({:?}) returned table {:?}", name, t.name()));
+                }
+                for (i, c) in t.columns().iter().enumerate() {
+                    if !t.has_column(c.name()) {
+                        ts.api_problems.push(format!("has_column({:?}) is false for a listed column", c.name()));
+                    }
+                    let first = t.columns().iter().position(|d| d.name() == c.name());
+                    if first == Some(i) {
+                        match t.get_column(c.name()) {
+                            Some(d) => {
+                                if col_snap(d) != col_snap(c) {
+                                    ts.api_problems.push(format!("get_column({:?}) differs from columns()[{}]", c.name(), i));
+                                }
+                            }
+                            None => ts.api_problems.push(format!("get_column({:?}) is None for a listed column", c.name())),
+                        }
+                    }
+                }
+                if t.has_column("No Such Column") || t.get_column("No Such Column").is_some() {
+                    ts.api_problems.push("has_column/get_column find a column that does not exist".into());
+                }
                 t.columns().to_vec()
             }
             None => {
@@ -228,6 +258,9 @@ pub fn take(pkg: &mut Package<SimDisk>) -> Snap {
                 }
             }
             Err(e) => ts.select_err = Some(e.to_string()),
+        }
+        if !global_problems.is_empty() {
+            ts.api_problems.append(&mut global_problems);
         }
         tables.insert(name, ts);
     }
